@@ -383,3 +383,136 @@ def check_census(cases, raw, hist_of):
         else:
             i += 1
     return bad
+
+
+# ------------------------------------------------------------------ cache_interface histories (harness/c07i.cpp)
+
+def canon_iface(line):
+    """the set a recorder returns is printed in std::set order by the harness, in recording order by the model"""
+    return re.sub(r"detached ([0-9a-fe,]+)", lambda m: "detached " + ",".join(sorted(m.group(1).split(","))), " ".join(line.split()))
+
+
+def iface_ops(rng, now, frames, trigs, depth_ids, in_page):
+    """a short script of interface operations (used stand-alone and inside pages); returns list of word lists"""
+    ops = []
+    open_ids = []
+    for _ in range(rng.randrange(0, 6)):
+        r = rng.random()
+        if r < 0.3:
+            ops.append(["ifetch", str(now), hx(rng.choice(frames)), "1" if rng.random() < 0.15 else "0"])
+        elif r < 0.5:
+            ts = [rng.choice(trigs) for _ in range(rng.choice((0, 1, 2)))]
+            ops.append(["istore", str(now), hx(rng.choice(frames)), hx(bytes([rng.randrange(256)])), trig_word(ts),
+                        str(rng.choice((-1, 0, 3, 60))), "1" if rng.random() < 0.3 else "0"])
+        elif r < 0.7:
+            ops.append(["iadd", rng.choice(trigs).hex()])
+        elif r < 0.82 and len(open_ids) < 3:
+            i = depth_ids[0]; depth_ids[0] += 1
+            open_ids.append(i); ops.append(["iattach", str(i)])
+        elif r < 0.92 and open_ids:
+            ops.append(["idetach", str(open_ids.pop(rng.randrange(len(open_ids))))])
+        elif r < 0.96:
+            ops.append(["irise", rng.choice(trigs + frames).hex()])
+        else:
+            ops.append(["istats"])
+    for i in reversed(open_ids):
+        if rng.random() < 0.8:
+            ops.append(["idetach", str(i)])
+    return ops
+
+
+def iface_history(rng, limit, nlines):
+    frames = [b"f%d" % i for i in range(rng.choice((2, 4)))]
+    pages = [b"p%d" % i for i in range(rng.choice((1, 3)))]
+    trigs = [b"t%d" % i for i in range(3)] + frames[:1] + pages[:1]
+    ids = [1]
+    now = 1000
+    h = [f"inew {limit}"]
+    for _ in range(nlines):
+        now += rng.choice((0, 0, 1, 2, 5))
+        r = rng.random()
+        if r < 0.45:
+            ops = iface_ops(rng, now, frames, trigs, ids, True)
+            script = ";".join(":".join(o) for o in ops) if ops else "-"
+            h.append(f"ipage {now} {hx(rng.choice(pages))} {rng.choice((-1, 2, 60))} {hx(bytes(rng.randrange(256) for _ in range(rng.randrange(0, 6))))} {script}")
+        elif r < 0.55:
+            h.append("irise " + rng.choice(trigs + frames + pages).hex())
+        elif r < 0.58:
+            h.append("iclear")
+        elif r < 0.62:
+            h.append("ireset")
+        else:
+            for o in iface_ops(rng, now, frames, trigs, ids, False)[:3]:
+                h.append(" ".join(o))
+    return h
+
+
+def iface_judge(cases, outs):
+    """independent reference for the trigger-recording clause, evaluated on the implementation's answers:
+    a page answered `cached` must be valid, i.e. stored by an earlier request, not expired, and none of the
+    triggers recorded while it was built (incl. those inherited from fetched frames, and its own key) raised
+    since.  Sound for any cache limit (a tracker entry may be evicted in the implementation, never the converse).
+    returns list of (line index, message)"""
+    bad = []
+    frames, pages = {}, {}      # key -> (trigger set, deadline)
+    def deadline(now, tmo):
+        return None if tmo < 0 else now + tmo
+    def live(ent, now):
+        return ent is not None and (ent[1] is None or ent[1] >= now)
+    def rise(t):
+        for d in (frames, pages):
+            for k in [k for k, e in d.items() if t in e[0]]:
+                del d[k]
+    def run_op(w, res, rec, now):
+        # rec: list of trigger sets to add recorded triggers to (page set and open recorders are all supersets here: one set suffices)
+        if w[0] == "iadd":
+            rec.add(w[1])
+        elif w[0] == "ifetch":
+            if res.startswith("hit") and w[3] == "0":
+                ent = frames.get(w[2])
+                if live(ent, now):
+                    rec.update(ent[0])
+                else:
+                    return f"frame {w[2]} served although it was invalidated, expired or never stored"
+            elif res.startswith("hit") and not live(frames.get(w[2]), now):
+                return f"frame {w[2]} served although it was invalidated, expired or never stored"
+        elif w[0] == "istore":
+            ts = set() if w[4] == "-" else set(w[4].split(","))
+            frames[w[2]] = (ts | {w[2]}, deadline(int(w[1]), int(w[5])))
+            if w[6] == "0":
+                rec.update(ts | {w[2]})
+        elif w[0] == "irise":
+            rise(w[1])
+        elif w[0] == "iclear":
+            frames.clear(); pages.clear()
+        return None
+    glob = set()
+    for k, (cs, o) in enumerate(zip(cases, outs)):
+        w = cs.split()
+        res = o.split("|")[0].strip()
+        if w[0] == "inew":
+            frames, pages, glob = {}, {}, set()
+        elif w[0] == "ipage":
+            now, key, tmo = int(w[1]), w[2], int(w[3])
+            if res.startswith("cached"):
+                ent = pages.get(key)
+                if not live(ent, now):
+                    bad.append((k, f"page {key} served from the cache although a trigger it depended on was raised, or it expired / was never stored"))
+                elif res.split()[1] != ent[2]:
+                    bad.append((k, f"page {key} served with a body that is not the one stored"))
+            elif res.startswith("built"):
+                rec = set()
+                answers = res.split(None, 1)[1].split(";") if len(res.split(None, 1)) > 1 else []
+                ops = [] if w[5] == "-" else [x.split(":") for x in w[5].split(";")]
+                for i, opw in enumerate(ops):
+                    m = run_op(opw, answers[i] if i < len(answers) else "", rec, now)
+                    if m:
+                        bad.append((k, m))
+                ent = (rec | {key, "5f553a" + (key if key != "-" else "")}, deadline(now, tmo), w[4])
+                pages[key] = ent
+                # store_page happened after the script: a rise inside the script of one of its own triggers does not count
+        elif w[0] in ("iadd", "ifetch", "istore", "irise", "iclear"):
+            m = run_op(w, res, glob, int(w[1]) if w[0] in ("ifetch", "istore") else 0)
+            if m:
+                bad.append((k, m))
+    return bad
